@@ -5,6 +5,7 @@ import (
 	"fmt"
 	"os"
 	"path/filepath"
+	"sort"
 	"time"
 
 	"verif/pkg/instrument"
@@ -125,7 +126,75 @@ func codecSeed(cfg *PropCfg, tier string, seed uint64, known []proto.KnownFindin
 	}
 	out.RunSecs += time.Since(t1).Seconds()
 	verifyReplays(p.w, p.node, out)
+	if !cfg.TextOnly && !cfg.NoProgs {
+		minimisePrograms(p.w, out)
+	}
 	return nil
+}
+
+// minimisePrograms cuts the program of a (verified) violation down to the definitions its
+// record types need, rebuilds that smaller program from the working tree and keeps it when
+// the replay still ends in the same violation. At most three violations per seed are
+// treated (a rebuild each); the others keep the whole program text.
+func minimisePrograms(w *Work, out *Outcome) {
+	done := 0
+	for i, rp := range out.Violations {
+		if done >= 3 {
+			break
+		}
+		if rp.Scenario.Kind == "rerun" || len(rp.Programs) != 1 || rp.Programs[0].Schema == nil || rp.Scenario.Type == "" {
+			continue
+		}
+		p := rp.Programs[0]
+		types := append([]string{rp.Scenario.Type}, rp.Scenario.Types...)
+		red := p.Schema.Reachable(types...)
+		if red == nil || len(red.Defs) >= len(p.Schema.Defs) {
+			continue
+		}
+		np := proto.ReplayProg{ID: p.ID, Schema: red, Bop: red.Print()}
+		if red.HasLib() {
+			np.Bop = red.PrintApp("lib.bop")
+		}
+		if p.Old != nil {
+			ored := p.Old.Reachable(types...)
+			if ored == nil {
+				continue
+			}
+			np.Old, np.OldBop = ored, ored.Print()
+			if ored.HasLib() {
+				np.OldBop = ored.PrintApp("lib.bop")
+			}
+		}
+		seen := map[int]bool{}
+		for _, m := range []int{rp.Scenario.Mask, rp.Scenario.PeerMask} {
+			if m >= 0 && !seen[m] {
+				seen[m] = true
+				np.Masks = append(np.Masks, m)
+			}
+		}
+		sort.Ints(np.Masks)
+		done++
+		w2 := *w
+		w2.H = filepath.Join(w.Dir, fmt.Sprintf("hmin%d", i))
+		spec := ProgSpec{ID: np.ID, Schema: np.Schema, Bop: np.Bop, Masks: np.Masks, Old: np.Old, OldBop: np.OldBop}
+		_, node, err := w2.BuildPrograms([]ProgSpec{spec}, genInstr, nil)
+		if err != nil {
+			os.RemoveAll(w2.H)
+			continue
+		}
+		cand := *rp
+		cand.Programs = []proto.ReplayProg{np}
+		cand.ProgramCut = fmt.Sprintf("%d -> %d definitions", len(p.Schema.Defs), len(red.Defs))
+		f := filepath.Join(w.Dir, fmt.Sprintf("replay-min-%d.json", i))
+		b, _ := json.Marshal(&cand)
+		os.WriteFile(f, b, 0o644)
+		_, _, err = runNodeRaw(node, []string{"-replay", f}, 5*time.Minute)
+		if exitCode(err) == 1 {
+			cand.MarkVerified()
+			out.Violations[i] = &cand
+		}
+		os.RemoveAll(w2.H)
+	}
 }
 
 // verifyReplays re-executes every new violation from its replay file in a fresh process.
